@@ -184,10 +184,10 @@ impl SharedContext for SsrSharedContext {
         for error in mem::take(&mut *self.errors.write().or_poisoned()) {
             _ = write!(
                 initial_chunk,
-                "[{}, {}, {:?}],",
+                "[{}, {}, {}],",
                 error.0 .0,
                 error.1,
-                error.2.to_string()
+                js_string(&error.2.to_string())
             );
         }
         initial_chunk.push_str("];");
@@ -295,10 +295,10 @@ impl Stream for AsyncDataStream {
             if !sealed.contains(&error.0) {
                 _ = write!(
                     resolved,
-                    "__SERIALIZED_ERRORS.push([{}, {}, {:?}]);",
+                    "__SERIALIZED_ERRORS.push([{}, {}, {}]);",
                     error.0 .0,
                     error.1,
-                    error.2.to_string()
+                    js_string(&error.2.to_string())
                 );
             }
         }
